@@ -287,6 +287,53 @@ class Sched:
                 self.start()
 
 
+# ------------------------------------------------------------------ scale: ops made behind a backlog of queued tasks
+def gen_backlog(rng, custom=False):
+    s = Sched(rng)
+    for _ in range(rng.randint(1, 4)):
+        if custom:
+            rng.choice([s.register, s.register, s.unregister, s.update])()
+        else:
+            rng.choice([s.update, s.update, s.register, s.nochange, s.unregister])()
+    return {'kind': 'backlog', 'n': rng.choice([1000, 1024, 1100, rng.randint(1000, 3000)]), 'ops': s.ops}
+
+
+def backlog_oracle(case, obs):
+    if obs.get('bench_error'):
+        return []
+    v = ['%s' % r for r in obs.get('raised', [])][:2]
+    ref = Reference()
+    for op in case['ops']:
+        ref.apply(op)
+    f = obs.get('final') or {}
+    where = f'behind a backlog of {case["n"]} queued tasks ({obs.get("pending_at_ops")} pending in the handler), after everything ran'
+    if f and sorted(f['installed']) != ref.expected():
+        v.append(f'{where}: installed {sorted(f["installed"])}; latest configuration + live registrations = '
+                 f'{ref.expected()} (the hash reported is {f.get("hash")!r})')
+    if f and norm_hash(f.get('hash')) != norm_hash(ref.latest_hash):
+        v.append(f'{where}: hash {f.get("hash")!r}, the last configuration received has {ref.latest_hash!r}')
+    return v
+
+
+def backlog_request(case):
+    return {'ops': driver_ops(case['ops']) + [{'op': 'applyTask', 'i': 0}] * (len(case['ops']) + 2)}
+
+
+def backlog_compare(case, obs, resp):
+    if 'error' in resp:
+        return ['model error: ' + resp['error']]
+    if obs.get('bench_error'):
+        return ['the bench could not run the case on this implementation: ' + obs['bench_error']]
+    m, i = resp['trace'][-1], obs['final']
+    d = []
+    if norm_hash(m['hash']) != norm_hash(i['hash']):
+        d.append(f'final hash model {m["hash"]!r} vs implementation {i["hash"]!r}')
+    for key in ('installed', 'polled'):
+        if sorted(m[key]) != sorted(i[key]):
+            d.append(f'final {key}: model {sorted(m[key])} vs implementation {sorted(i[key])}')
+    return d
+
+
 # ------------------------------------------------------------------ preemption cases (judged by the oracle only)
 def _u(h, ts, *tps):
     return {'op': 'poll', 'nc': False, 'rt': 1, 'ts': ts, 'hash': h,
